@@ -25,6 +25,8 @@ pub struct DiskState {
     pub total_calls: u64,
     pub crash_at: Option<u64>,
     pub fault_at: Option<(u64, DiskFault)>,
+    /// this many of the next reads by erbium fail with SQLITE_IOERR_READ
+    pub read_fail_next: u32,
     pub dead: bool,
     pub epoch: u32,
     pub observer: bool,
@@ -57,6 +59,7 @@ impl DiskState {
         self.calls = 0;
         self.crash_at = None;
         self.fault_at = None;
+        self.read_fail_next = 0;
         self.crash_image = None;
         self.call_names.clear();
     }
@@ -153,6 +156,11 @@ unsafe extern "C" fn x_read(f: *mut ffi::sqlite3_file, buf: *mut c_void, amt: c_
     let (epoch, observer) = (sf.epoch, sf.observer);
     guarded(ffi::SQLITE_IOERR_READ, |d| {
         if !observer && (epoch != d.epoch || d.dead) {
+            return ffi::SQLITE_IOERR_READ;
+        }
+        if !observer && d.read_fail_next > 0 {
+            d.read_fail_next -= 1;
+            d.faults_fired += 1;
             return ffi::SQLITE_IOERR_READ;
         }
         let empty = vec![];
